@@ -10,7 +10,7 @@ from engine.qb import (AnalysisBroken, estr, unwrap, cval, walk, last_field, fie
 from rules.common import (shared_store, is_marker_set, is_marker_get, model_name, RELEASE_OK, ACQUIRE_OK,
                           is_shared_data_idx, ret_value, slot_call, field_is)
 
-UNITS = ['lib/ringbuffer.c']
+UNITS = ['lib/ringbuffer.c', 'lib/unix.c']
 DECIDES = ('Decides the publication/consumption protocol order in qb_rb_chunk_commit/_rb_chunk_reclaim/peek/read/alloc, '
            'the single-writer rule for read_pt/write_pt and the memory orders; does not decide FIFO/exactly-once over interleavings.')
 RULES = {
@@ -23,8 +23,9 @@ RULES = {
     'R7': 'qb_atomic_int_set_ex/get_ex are __atomic_store_n/__atomic_load_n with qb_model_map(model); qb_model_map maps every member to the same-named __ATOMIC_*',
     'R8': 'the write index never catches up with the read index while chunks are unread (equal indices are read as "empty"): the free-space computation keeps one spare word in both unequal-index cases and the allocation margin covers the chunk header plus the alignment word, the same margin at open and at alloc (= C07.R1, C07.R6)',
     'R9': 'an unread chunk is not damaged by the commit of another (or by its own): the two words commit overwrites behind a chunk are the free words the margin keeps, and where the second one is the committed chunk\'s own length word (a chunk that fills the ring) it is left alone - the index stored at is the index compared (= C07.R7)',
+    'R10': 'attaching to a ring writes nothing into it: the function that maps the data area (twice, back to back) stores nothing through the addresses it has mapped - a second handle may be opened while chunks are in flight, and a store into the area, even one that puts the old value back, races with the writer and the reader',
 }
-FLOORS = {'R1': 5, 'R2': 9, 'R3': 4, 'R4': 5, 'R5': 5, 'R6': 5, 'R7': 8, 'R8': 8, 'R9': 4}
+FLOORS = {'R1': 5, 'R2': 9, 'R3': 4, 'R4': 5, 'R5': 5, 'R6': 5, 'R7': 8, 'R8': 8, 'R9': 4, 'R10': 1}
 
 MAGIC = 0xA1A1A1A1
 
@@ -77,6 +78,7 @@ def run(ctx):
     for r in sub.results:
         r['rule'] = 'R9'
         ctx.results.append(r)
+    r10(ctx)
 
 
 # -- R1 ---------------------------------------------------------------------
@@ -492,3 +494,37 @@ def r8(ctx):
     for r in sub.results:
         r['rule'] = 'R8'
         ctx.results.append(r)
+
+
+def r10(ctx):
+    prog = ctx.prog
+    f = prog.fn('qb_sys_circular_mmap')
+    maps = [st for st in list(f.events('STORE')) + list(f.events('DECL')) if (st.rhs if st.kind == 'STORE' else st.d.get('init')) is not None and
+            callee_of(unwrap(st.rhs if st.kind == 'STORE' else st.d['init'])) == 'mmap']
+    if len(maps) < 2:
+        raise AnalysisBroken('qb_sys_circular_mmap: mappings = %d' % len(maps))
+    # pointers into the mapped area: the mmap results and every local computed from them
+    ptrs = {estr(st.lhs) if st.kind == 'STORE' else st.d['var'] for st in maps}
+    outp = f.params[1]['n']
+    grew = True
+    while grew:
+        grew = False
+        for st in list(f.events('STORE')) + list(f.events('DECL')):
+            rhs = st.rhs if st.kind == 'STORE' else st.d.get('init')
+            name = (estr(st.lhs) if unwrap(st.lhs).get('k') == 'var' else None) if st.kind == 'STORE' else st.d['var']
+            if name and name not in ptrs and isinstance(rhs, dict) and any(n.get('k') == 'var' and n.get('n') in ptrs for n in walk(rhs)):
+                ptrs.add(name)
+                grew = True
+    bad = []
+    for st in f.events('STORE'):
+        l = unwrap(st.lhs)
+        if l.get('k') in ('deref', 'idx'):
+            base = l.get('e') if l.get('k') == 'deref' else l.get('b')
+            if any(n.get('k') == 'var' and n.get('n') in ptrs for n in walk(base)) and not any(n.get('k') == 'var' and n.get('n') == outp for n in walk(base)):
+                bad.append(st)
+    for ev in f.events('CALL'):
+        if ev.callee in ('memset', 'memcpy', 'memmove') and any(n.get('k') == 'var' and n.get('n') in ptrs for n in walk(ev.args[0])):
+            bad.append(ev)
+    ctx.check('R10', 'mapping-the-ring-writes-nothing-into-it', not bad, bad[0] if bad else maps[0],
+              'qb_sys_circular_mmap stores nothing through the addresses it maps',
+              'qb_sys_circular_mmap stores into the area it has just mapped: it runs on every attach, also on one made while chunks are in flight - a word of a published chunk (its length, its payload) is overwritten and put back behind the back of the writer and the reader')
